@@ -665,12 +665,26 @@ func (c *Check) runningMinimumAs(rule string) {
 	case other == nil:
 		c.undecided(rule, "running-min", pos, "second operand of the unit comparison not recognised")
 	default:
+		// the loop-carried value is replaced by the compared element on some path (possibly
+		// through the merge phi of the `if` and of the loop's post block)
 		upd := false
-		for _, e := range phiBase.Edges {
-			if e == other {
-				upd = true
+		seenPhi := map[*ssa.Phi]bool{}
+		var look func(ph *ssa.Phi)
+		look = func(ph *ssa.Phi) {
+			if seenPhi[ph] {
+				return
+			}
+			seenPhi[ph] = true
+			for _, e := range ph.Edges {
+				if e == other {
+					upd = true
+				}
+				if q, ok := e.(*ssa.Phi); ok {
+					look(q)
+				}
 			}
 		}
+		look(phiBase)
 		if upd {
 			c.ok(rule, "running-min", pos, "every unit is compared against the running minimum", "Scale's reference operand reads the loop-carried minimum, which is replaced by the compared element")
 		} else {
